@@ -21,18 +21,18 @@ import (
 )
 
 type vc02Machine struct {
-	kinds   []string
-	bms     []*Bitmap
-	backing [][]byte // bytes a reloaded bitmap is mapped onto (nil: not mapped)
-	pristine [][]byte
-	m       []uint64 // model, sorted
-	keys    []uint64 // focus container keys
-	offKeys []uint64 // the focus keys that fit the official format
-	touched []uint64
-	stage   map[uint64]int // per key: 1 touched, 2 then replaced (import/optimize/reload), 3 then touched again
-	everKey map[uint64]bool
-	hist    []string
-	classes map[string]bool
+	kinds      []string
+	bms        []*Bitmap
+	backing    [][]byte // bytes a reloaded bitmap is mapped onto (nil: not mapped)
+	pristine   [][]byte
+	m          []uint64 // model, sorted
+	keys       []uint64 // focus container keys
+	offKeys    []uint64 // the focus keys that fit the official format
+	touched    []uint64
+	stage      map[uint64]int // per key: 1 touched, 2 then replaced (import/optimize/reload), 3 then touched again
+	everKey    map[uint64]bool
+	hist       []string
+	classes    map[string]bool
 	bigImports int
 }
 
@@ -163,6 +163,20 @@ func (s *vc02Machine) check(t *rapid.T) {
 		pl = append(pl, v)
 	}
 	sort.Slice(pl, func(i, j int) bool { return pl[i] < pl[j] })
+	focus, haveFocus := uint64(0), false
+	if len(s.touched) > 0 && rapid.Bool().Draw(t, "focusRead") {
+		focus, haveFocus = s.touched[rapid.IntRange(0, len(s.touched)-1).Draw(t, "focus")], true
+	}
+	defer func() {
+		// the last read decides which container the lookasides hold when the next action starts
+		if haveFocus {
+			for i, b := range s.bms {
+				if got := b.Contains(focus); got != s.has(focus) {
+					t.Fatalf("%s bitmap: Contains(%d)=%v want %v\n%s", s.kinds[i], focus, got, !got, s.describe())
+				}
+			}
+		}
+	}()
 	for i, b := range s.bms {
 		if err := vr2ReadAll(b, s.m); err != nil {
 			t.Fatalf("%s bitmap: %v\n%s", s.kinds[i], err, s.describe())
@@ -185,9 +199,15 @@ func (s *vc02Machine) check(t *rapid.T) {
 			} else if eof || v != s.m[idx] {
 				t.Fatalf("%s bitmap: Seek(%d).Next()=(%d,eof=%v) want %d\n%s", s.kinds[i], x, v, eof, s.m[idx], s.describe())
 			}
-			lo, hi := pl[0], pl[len(pl)-1]
-			if got, want := b.CountRange(lo, hi), uint64(len(vRange(s.m, lo, hi))); got != want {
-				t.Fatalf("%s bitmap: CountRange(%d,%d)=%d want %d\n%s", s.kinds[i], lo, hi, got, want, s.describe())
+			ranges := [][2]uint64{{pl[0], pl[len(pl)-1]}}
+			for _, y := range []uint64{pl[0], x, pl[len(pl)-1]} {
+				// ranges inside one container (CountRange has a fast path for them)
+				ranges = append(ranges, [2]uint64{y &^ 0xFFFF, y}, [2]uint64{y, y | 0xFFFF}, [2]uint64{y &^ 0xFFFF, y&^0xFFFF + 1})
+			}
+			for _, r := range ranges {
+				if got, want := b.CountRange(r[0], r[1]), uint64(len(vRange(s.m, r[0], r[1]))); got != want {
+					t.Fatalf("%s bitmap: CountRange(%d,%d)=%d want %d\n%s", s.kinds[i], r[0], r[1], got, want, s.describe())
+				}
 			}
 		}
 		if s.backing[i] != nil {
